@@ -532,6 +532,46 @@ DecompContract(ev, M) ==
                             lhs |-> ValP(px, ev.idx, sig, M), rhs |-> recon(sig)]>> >>)
           \o Clause("key", \A k \in 1..Len(parts) : keyok(k), {k \in 1..Len(parts) : ~keyok(k)})
 
+(* -- spin integration (C15) ------------------------------------------------------ *)
+(* pre: spin-orbital expression (indices without spin range over both      *)
+(* spins), post: spin-integrated expression (every index carries a spin).  *)
+(* ev.tgt: target indices of post, ev.a.pretgt: the same targets in pre,   *)
+(* ev.a.spins: requested spins.  The model gives spin conserving tensors   *)
+(* (M.scn) zero on non spin conserving blocks and builds <pq||rs> from     *)
+(* Coulomb integrals.  Restricted: the result only has alpha indices; it   *)
+(* is compared on a model whose values depend on the spatial orbital only. *)
+SpinContract(ev, M) ==
+  LET ptg == SeqRange(ev.tgt)
+      qtg == SeqRange(ev.a.pretgt)
+      ppre == PrepExpr(ev.pre)
+      ppost == PrepExpr(ev.post)
+      back(sig) == [j \in 1..Len(ev.idx) |->
+                      IF \E k \in 1..Len(ev.a.pretgt) : ev.a.pretgt[k] = j
+                      THEN LET k == CHOOSE kk \in 1..Len(ev.a.pretgt) : ev.a.pretgt[kk] = j
+                           IN IF ev.a.restricted THEN WithSpin(sig[ev.tgt[k]], ev.a.spins[k], M)
+                              ELSE sig[ev.tgt[k]]
+                      ELSE 0]
+      bad == {sig \in Assignments(ev.tgt, ev.idx, M) :
+                ValP(ppost, ev.idx, sig, M) # ValP(ppre, ev.idx, back(sig), M)}
+  IN IF ~(ExprOrdOk(ev.pre, qtg) /\ ExprOrdOk(ev.post, ptg)) THEN << <<"ord", "loop order">> >>
+     ELSE IF bad = {} THEN <<>>
+     ELSE LET sig == CHOOSE s \in bad : TRUE IN
+          << <<"val", [n |-> Cardinality(bad), at |-> sig,
+                      integrated |-> ValP(ppost, ev.idx, sig, M),
+                      spinorbital |-> ValP(ppre, ev.idx, back(sig), M)]>> >>
+
+(* allowed_spin_blocks: every target spin pattern that is not reported is  *)
+(* identically zero                                                        *)
+SpinBlocksContract(ev, M) ==
+  LET tg == SeqRange(ev.tgt)
+      px == PrepExpr(ev.pre)
+      pattern(sig) == [k \in 1..Len(ev.tgt) |-> SpinOf(sig[ev.tgt[k]], M)]
+      bad == {sig \in Assignments(ev.tgt, ev.idx, M) :
+                pattern(sig) \notin SeqRange(ev.a.allowed) /\ ValP(px, ev.idx, sig, M) # 0}
+  IN IF ~ExprOrdOk(ev.pre, tg) THEN << <<"ord", "loop order">> >>
+     ELSE Clause("forbidden-block-nonzero", bad = {},
+                 IF bad = {} THEN {} ELSE {pattern(CHOOSE s \in bad : TRUE)})
+
 (* -- the contract per operation ------------------------------------------ *)
 Contract(ev, M) ==
   CASE ev.op = "valpres" -> ValEq(ev, M, ev.pre, ev.post)
@@ -540,6 +580,8 @@ Contract(ev, M) ==
     [] ev.op = "simplify_unitary" -> UnitaryContract(ev, M)
     [] ev.op = "wicks" -> WicksContract(ev, M)
     [] ev.op = "tensor" -> TensorContract(ev, M)
+    [] ev.op = "spin" -> SpinContract(ev, M)
+    [] ev.op = "spin_blocks" -> SpinBlocksContract(ev, M)
     [] ev.op = "symmetry" -> SymmetryContract(ev, M)
     [] ev.op = "decomposition" -> DecompContract(ev, M)
     [] ev.op = "remove_tensor" -> RemoveTensorContract(ev, M)
